@@ -36,17 +36,44 @@ C semantics implemented here (the trusted part of the translator):
     callee in one kernel are refused (they would share the input); calls as statements are not
     allowed in a kernel, except `abort()`/`__assert_fail` (the kernel's result is `none`) and the
     callees a kernel lists in `drop_calls` (data movement such as `memcpy` that a *decision*
-    kernel leaves out); element stores `a[i] = e` are allowed only into the arrays a kernel lists
+    kernel leaves out) or in `mark_calls` (left out too, but reaching the call sets the Bool output
+    `called_<callee>`; its initial value is the input `i_called_<callee>`, which GenEq instantiates
+    with `false`: whether e.g. `uv__queue_insert_tail` is reached is then part of the tied decision); element stores `a[i] = e` are allowed only into the arrays a kernel lists
     in `drop_stores`, and are likewise left out;
+  * any other `a | b`, `x |= e`, `x &= e` is `CSem.lor` / `CSem.land` on the 64-bit patterns (for
+    unsigned operands, whose values are already reduced, this is the C result; on `int` the low 32
+    bits are read back signed as for `&`);
+  * `sizeof(T)` with a type argument is the constant `CEnum.sizeof_<T>` whose value is taken from
+    the compiler in the same run as the enum constants (`sizeof expr` is unsupported);
+  * `a[i]` read in an expression is the opaque input `elem_<a>` (the index is not translated): at
+    most one read site per array and kernel, and never after a (dropped) store into that array;
   * `do { … } while (0)` with `break`, `if/else`, `?:`, `return`, assignment, compound
-    assignment, `++/--`, local declarations.  Anything else (loops, `switch`, `goto`, …) aborts
-    the generation of that kernel with "unsupported construct" (reported by the checks as a broken
-    Tie-A obligation).
+    assignment, `++/--`, local declarations;
+  * `switch (e) { case C1: … case C2: … default: … }`: `e` is evaluated once; the case labels must
+    be direct children of the switch body (no labels inside nested statements) and their values
+    translatable constants; control enters at the first label equal to `e` (else at `default`,
+    else after the switch) and runs through the *rest of the body* from there — so `break`
+    (leaves the switch), `return`, adjacent empty labels and genuine fall-through all have their C
+    meaning (fall-through code is duplicated in the generated term, not approximated);
+    a `break` inside a `switch` inside `do{}while(0)` leaves the switch only.
+    Anything else (loops, `goto`, `continue`, …) aborts the generation of that kernel with
+    "unsupported construct" (reported by the checks as a broken Tie-A obligation).
 
 Which statements form a kernel: the whole body; or `slice=[vars]`: the statements, at any depth,
 that assign only to the listed variables; or `after=var`: the top-level statements following the
 single top-level statement that writes `var` (the tail of a function after a library call or a
 retry loop; `var` becomes an input; more than one writer is refused).
+
+`region="before_loop"`: the top-level statements before the first top-level loop of the function;
+`region="loop_iter"`: ONE iteration of the single top-level `while (c) body`: the kernel is
+`if (c) body`, with the extra Bool output `loop_again` = `c` held and the body ran to its end
+(`false` when `c` fails or the body leaves through `break`; `continue` is unsupported).
+`havoc_loops=True`: a loop nested in the kernel is abstracted: each variable it assigns gets an
+unknown value (input `havoc_<var>_<n>`), calls inside it are left out.  `trace_calls=[f…]`: call
+statements to these callees are left out but recorded, in program order and with their
+non-pointer arguments, in the output `call_seq : List (String × List Int)` (initial value = input
+`i_call_seq`, instantiated with `[]` by GenEq) — the order of the phases of `uv_run` and the
+timeout handed to `uv__io_poll` are tied this way.
 
 Kernels carry a `group` ("core" = proved in UvModel/GenEq.lean, "C20" = UvModel/GenEq/C20.lean, …);
 see `main` for how a failing kernel is confined to its group.
@@ -78,6 +105,14 @@ KERNELS = [
     dict(name="backend_timeout_api", file="src/unix/core.c", func="uv_backend_timeout"),
     dict(name="run_timeout_decision", file="src/unix/core.c", func="uv_run", slice=["can_sleep", "timeout"]),
     dict(name="translate_sys_error", file="src/unix/core.c", func="uv_translate_sys_error"),
+    # uv_run: entry (alive test, initial timers pass), one loop iteration (phase order, poll timeout, leave/continue), exit
+    dict(name="run_entry", group="C03", file="src/unix/core.c", func="uv_run", region="before_loop", keep=["r"],
+         trace_calls=["uv__update_time", "uv__run_timers"]),
+    dict(name="run_iter", group="C03", file="src/unix/core.c", func="uv_run", region="loop_iter", havoc_loops=True, keep=["r"],
+         drop_calls=["uv__metrics_inc_loop_count", "uv__metrics_update_idle_time"],
+         trace_calls=["uv__run_pending", "uv__run_idle", "uv__run_prepare", "uv__io_poll", "uv__run_check",
+                      "uv__run_closing_handles", "uv__update_time", "uv__run_timers"]),
+    dict(name="run_exit", group="C03", file="src/unix/core.c", func="uv_run", after="timeout"),
     dict(name="timer_clamp", file="src/timer.c", func="uv_timer_start", slice=["clamped_timeout"]),
     dict(name="timer_due_in", file="src/timer.c", func="uv_timer_get_due_in"),
     dict(name="next_timeout", file="src/timer.c", func="uv__next_timeout"),
@@ -115,6 +150,50 @@ KERNELS = [
          slice=["size_deref"]),
     # C07 entry check of uv_write2 / uv_try_write2
     dict(name="check_before_write", group="C07", file="src/unix/stream.c", func="uv__check_before_write"),
+    # C10 address-family switch of the send path and the entry checks of the try_send family
+    dict(name="udp_prep_pkt", group="C10", file="src/unix/udp.c", func="uv__udp_prep_pkt", drop_calls=["memset"]),
+    dict(name="udp_check_before_send", group="C10", file="src/uv-common.c", func="uv__udp_check_before_send"),
+    dict(name="udp_try_send_api", group="C10", file="src/uv-common.c", func="uv_udp_try_send"),
+    dict(name="udp_try_send", group="C10", file="src/unix/udp.c", func="uv__udp_try_send"),
+    dict(name="udp_try_send2_api", group="C10", file="src/uv-common.c", func="uv_udp_try_send2"),
+    dict(name="udp_try_send2", group="C10", file="src/unix/udp.c", func="uv__udp_try_send2"),
+    # C14 watcher-table sizing and the mask arithmetic / early returns of uv__io_start/stop/active
+    dict(name="next_power_of_two", group="C14", file="src/unix/core.c", func="next_power_of_two"),
+    dict(name="maybe_resize_size", group="C14", file="src/unix/core.c", func="maybe_resize", slice=["nwatchers"]),
+    dict(name="io_start", group="C14", file="src/unix/core.c", func="uv__io_start",
+         drop_calls=["maybe_resize"], mark_calls=["uv__queue_insert_tail"], drop_stores=["loop_watchers"]),
+    dict(name="io_stop", group="C14", file="src/unix/core.c", func="uv__io_stop",
+         drop_calls=["uv__queue_init"], mark_calls=["uv__queue_remove", "uv__queue_insert_tail"],
+         drop_stores=["loop_watchers"]),
+    dict(name="io_active", group="C14", file="src/unix/core.c", func="uv__io_active"),
+    dict(name="io_close", group="C14", file="src/unix/core.c", func="uv__io_close",
+         trace_calls=["uv__io_stop", "uv__queue_remove", "uv__platform_invalidate_fd"]),
+    # C17 fs-poll: the change test, the re-arm delay, timer_cb
+    dict(name="statbuf_eq", group="C17", file="src/fs-poll.c", func="statbuf_eq"),
+    dict(name="fs_poll_rearm", group="C17", file="src/fs-poll.c", func="poll_cb", slice=["interval"]),
+    dict(name="fs_poll_timer_cb", group="C17", file="src/fs-poll.c", func="timer_cb"),
+    # C17 inotify: event classification of one record, the mask uv_fs_event_start registers (use `|` on literals)
+    dict(name="inotify_events", group="C17", file="src/unix/linux.c", func="uv__inotify_read", slice=["events"]),
+    dict(name="fs_event_start_mask", group="C17", file="src/unix/linux.c", func="uv_fs_event_start", slice=["events"]),
+    # C13 tree order and the decisions of uv__signal_start (lock/tree calls dropped)
+    dict(name="signal_compare", group="C13", file="src/unix/signal.c", func="uv__signal_compare"),
+    dict(name="signal_start", group="C13", file="src/unix/signal.c", func="uv__signal_start",
+         drop_calls=["uv__signal_stop", "uv__signal_block_and_lock", "uv__signal_unlock_and_unblock",
+                     "uv__signal_tree_s_RB_INSERT"]),
+    # C05 uv_try_write2 return-value decision, uv__try_write iov clamp and errno mapping
+    dict(name="try_write2", group="C05", file="src/unix/stream.c", func="uv_try_write2"),
+    dict(name="try_write_iovcnt", group="C05", file="src/unix/stream.c", func="uv__try_write", slice=["iovcnt", "iovmax"]),
+    dict(name="try_write_result", group="C05", file="src/unix/stream.c", func="uv__try_write", after="n"),
+    # C06 uv_read_start checks, uv__read_start / uv_read_stop flag updates (watcher calls dropped)
+    dict(name="read_start_api", group="C06", file="src/uv-common.c", func="uv_read_start"),
+    dict(name="read_start_body", group="C06", file="src/unix/stream.c", func="uv__read_start",
+         drop_calls=["uv__io_start", "uv__stream_osx_interrupt_select"]),
+    dict(name="read_stop", group="C06", file="src/unix/stream.c", func="uv_read_stop",
+         drop_calls=["uv__io_stop", "uv__stream_osx_interrupt_select"]),
+    # C11 system-call route of uv__fs_write / uv__fs_read, result normalisation of uv__fs_work
+    dict(name="fs_write_route", group="C11", file="src/unix/fs.c", func="uv__fs_write"),
+    dict(name="fs_read_route", group="C11", file="src/unix/fs.c", func="uv__fs_read", drop_calls=["uv__free"]),
+    dict(name="fs_work_result", group="C11", file="src/unix/fs.c", func="uv__fs_work", slice=["req_result"]),
 ]
 
 U32 = {"unsigned int", "unsigned", "uint32_t"}
@@ -125,6 +204,9 @@ I64 = {"long", "ssize_t", "int64_t", "long long", "time_t", "__syscall_slong_t",
 
 class Unsupported(Exception):
     pass
+
+
+SIZEOFS = {}    # lean constant name -> C expression, for `sizeof(T)` (valued together with the enums)
 
 
 def loc(n):
@@ -186,8 +268,12 @@ def strip(n):
 
 
 class Tr:
-    def __init__(self, name, drop_calls=(), drop_stores=()):
+    def __init__(self, name, drop_calls=(), drop_stores=(), mark_calls=(), trace_calls=(), havoc_loops=False):
         self.name = name
+        self.trace_calls = set(trace_calls)   # dropped calls appended, with their integer arguments, to `call_seq`
+        self.havoc_loops = havoc_loops        # an inner loop = fresh opaque values for the variables it writes
+        self.havoc_ids = {}
+        self.mark_calls = set(mark_calls)     # dropped calls reported as Bool outputs `called_<fn>`
         self.drop_calls = set(drop_calls)     # data-movement calls left out of a decision kernel
         self.drop_stores = set(drop_stores)   # arrays whose element stores are left out
         self.inputs = {}       # lean name -> "Int" | "Bool"
@@ -198,6 +284,7 @@ class Tr:
         self.written = []      # ordered list of variables ever written
         self.wtypes = {}
         self.call_sites = {}   # callee -> ids of the call expressions read as `call_<callee>`
+        self.elem_sites = {}   # array -> ids of the `a[i]` expressions read as `elem_<a>`
 
     # ------------------------------------------------------------ names
     def lv_name(self, n):
@@ -375,6 +462,14 @@ class Tr:
                 if tk == "i32":
                     return f"(CSem.i32 {e})", "int"
                 raise Unsupported(f"& on {ctype(n)} at {loc(n)}")
+            if op == "|":
+                tk = kind_of(ctype(n))
+                e = f"(CSem.lor {self.as_int(a, env)} {self.as_int(b, env)})"
+                if tk in ("u32", "u64"):
+                    return e, "int"
+                if tk == "i32":
+                    return f"(CSem.i32 {e})", "int"
+                raise Unsupported(f"| on {ctype(n)} at {loc(n)}")
             if op in (">>", "<<"):
                 sb = strip(b)
                 if sb.get("kind") != "IntegerLiteral" or not (0 <= int(sb["value"]) < 32):
@@ -390,7 +485,20 @@ class Tr:
                 raise Unsupported(f"comma at {loc(n)}")
             raise Unsupported(f"binary {op} at {loc(n)}")
         if k == "UnaryExprOrTypeTraitExpr":
-            raise Unsupported(f"sizeof at {loc(n)}")
+            at = n.get("argType", {}).get("qualType")
+            if n.get("name") != "sizeof" or not at or not re.fullmatch(r"[A-Za-z_][A-Za-z0-9_ ]*", at):
+                raise Unsupported(f"sizeof of an expression at {loc(n)}")
+            ln = "sizeof_" + at.replace(" ", "_")
+            SIZEOFS[ln] = f"sizeof({at})"
+            return f"(CEnum.{ln} : Int)", "int"
+        if k == "ArraySubscriptExpr":
+            arr = self.lv_name(n["inner"][0])
+            if "#stored:" + arr in env:
+                raise Unsupported(f"read of {arr}[] after a store into it at {loc(n)}")
+            self.elem_sites.setdefault(arr, set()).add(n.get("id"))
+            if len(self.elem_sites[arr]) > 1:
+                raise Unsupported(f"two read sites of {arr}[] in one kernel at {loc(n)}")
+            return self.read(env, "elem_" + arr), "int"
         if k == "ConditionalOperator":
             c, a, b = n["inner"]
             ea, ta = self.expr(a, env)
@@ -449,8 +557,10 @@ class Tr:
             body, cond = s["inner"]
             cs = strip(cond)
             if not (cs.get("kind") == "IntegerLiteral" and int(cs["value"]) == 0):
-                raise Unsupported(f"loop at {loc(s)}")
-            return self.stmt(body, env, k, k, kr)
+                if not self.havoc_loops:
+                    raise Unsupported(f"loop at {loc(s)}")
+            else:
+                return self.stmt(body, env, k, k, kr)
         if kd == "BreakStmt":
             if kb is None:
                 raise Unsupported(f"break outside do-while(0) at {loc(s)}")
@@ -470,10 +580,66 @@ class Tr:
                     return self.assign(env, d["name"], e, lambda e2: go(i + 1, e2))
                 return go(i + 1, env)
             return go(0, env)
-        if kd in ("WhileStmt", "ForStmt", "SwitchStmt", "GotoStmt", "LabelStmt"):
+        if kd == "SwitchStmt":
+            return self.switch(s, env, k, kr)
+        if kd in ("WhileStmt", "ForStmt", "DoStmt") and self.havoc_loops:
+            # abstraction of an inner loop: every variable it writes gets a fresh unknown value (input
+            # `havoc_<var>_<n>`); the calls inside it are left out (they are not recorded in call_seq)
+            ws = sorted(x for x in self.writes(s, set()) if not x.startswith("call:"))
+            if "?" in ws:
+                raise Unsupported(f"loop writing through an untranslatable lvalue at {loc(s)}")
+            tag = self.havoc_ids.setdefault(s.get("id"), len(self.havoc_ids) + 1)
+            def go(i, env):
+                if i == len(ws):
+                    return k(env)
+                hv = self.read({}, f"havoc_{ws[i]}_{tag}")
+                return self.assign(env, ws[i], hv, lambda e2: go(i + 1, e2))
+            return go(0, env)
+        if kd in ("WhileStmt", "ForStmt", "GotoStmt", "LabelStmt", "CaseStmt", "DefaultStmt", "ContinueStmt"):
             raise Unsupported(f"{kd} at {loc(s)}")
         # expression statement
         return self.expr_stmt(s, env, k)
+
+    def switch(self, s, env, k, kr):
+        """`switch (e) body`: flatten the labels that are direct children of the body; entering at label
+        i runs every statement after it (fall-through), `break` continues after the switch."""
+        inner = [c for c in s["inner"] if isinstance(c, dict)]
+        if len(inner) != 2 or inner[1].get("kind") != "CompoundStmt":
+            raise Unsupported(f"switch shape at {loc(s)}")
+        cond, body = inner
+        items = []      # ("case", lean const) | ("default",) | ("stmt", node)
+        for c in body.get("inner", []):
+            while c.get("kind") in ("CaseStmt", "DefaultStmt"):
+                if c["kind"] == "CaseStmt":
+                    if len(c["inner"]) != 2:
+                        raise Unsupported(f"case range at {loc(c)}")
+                    before = set(self.inputs)
+                    ce, ct = self.expr(c["inner"][0], {})
+                    if ct != "int" or set(self.inputs) != before:
+                        raise Unsupported(f"non-constant case label at {loc(c)}")
+                    items.append(("case", ce))
+                    c = c["inner"][1]
+                else:
+                    items.append(("default",))
+                    c = c["inner"][0]
+            items.append(("stmt", c))
+        if not items or items[0][0] == "stmt":
+            raise Unsupported(f"statement before the first case label at {loc(s)}")
+        if sum(1 for it in items if it[0] == "default") > 1:
+            raise Unsupported(f"two default labels at {loc(s)}")
+        sw = self.fresh("switch")
+        def tail(i, env):   # the rest of the body from item i on
+            return self.seq([it[1] for it in items[i:] if it[0] == "stmt"], dict(env), k, k, kr)
+        def chain(i, env):
+            while i < len(items) and items[i][0] != "case":
+                i += 1
+            if i == len(items):
+                d = [j for j, it in enumerate(items) if it[0] == "default"]
+                return tail(d[0], env) if d else k(dict(env))
+            return (f"if decide ({sw} = {items[i][1]}) then\n{indent(tail(i, env))}\nelse\n"
+                    f"{indent(chain(i + 1, env))}")
+        ce = self.as_int(cond, env)
+        return f"let {sw} : Int := {ce}\n" + chain(0, env)
 
     def expr_stmt(self, s, env, k):
         n = strip(s)
@@ -489,6 +655,8 @@ class Tr:
                 except Unsupported:
                     arr = None
                 if arr in self.drop_stores:
+                    env = dict(env)
+                    env["#stored:" + arr] = "1"     # path-sensitive: later reads of arr[] on this path are refused
                     return k(env)
                 raise Unsupported(f"array store at {loc(n)}")
             name = self.lv_name(lhs)
@@ -516,6 +684,16 @@ class Tr:
                 if r.get("kind") == "UnaryOperator" and r.get("opcode") == "~":
                     neg, r = True, r["inner"][0]
                 es = self.enum_set(r)
+                if es is None and op in ("|=", "&="):
+                    # general word arithmetic: x |= e, x &= e
+                    tk = kind_of(ctype(n))
+                    if tk not in ("u32", "u64", "i32"):
+                        raise Unsupported(f"{op} on {ctype(n)} at {loc(n)}")
+                    cur = self.read(env, name)
+                    e = f"(CSem.{'lor' if op == '|=' else 'land'} {cur} {self.as_int(rhs, env)})"
+                    if tk == "i32":
+                        e = f"(CSem.i32 {e})"
+                    return self.assign(env, name, e, k)
                 if es is None:
                     raise Unsupported(f"{op} with non-constant mask at {loc(n)}")
                 if (op == "|=" and neg) or (op == "&=" and not neg) or (op == "^=" and neg):
@@ -548,6 +726,15 @@ class Tr:
             if fn in ("__assert_fail", "abort"):
                 # reaching it is outside the kernel's domain: result is the distinguished `none`
                 return "none"
+            if fn in self.trace_calls:
+                # a dropped call recorded in program order, with its non-pointer arguments, in `call_seq`
+                args = [self.as_int(a, env) for a in n["inner"][1:] if kind_of(ctype(a)) != "ptr"]
+                cur = self.read(env, "call_seq", "List (String × List Int)")
+                return self.assign(env, "call_seq", f'({cur} ++ [("{fn}", [{", ".join(args)}])])', k,
+                                   "List (String × List Int)")
+            if fn in self.mark_calls:
+                # a dropped call whose *being reached* is a decision of the kernel: Bool output `called_<fn>`
+                return self.assign(env, "called_" + fn, "true", k, "Bool")
             if fn in self.drop_calls:
                 return k(env)
             raise Unsupported(f"call statement {fn} at {loc(n)}")
@@ -611,7 +798,8 @@ def indent(s):
 
 
 def gen_kernel(k, tmpdir):
-    tr = Tr(k["name"], k.get("drop_calls", ()), k.get("drop_stores", ()))
+    tr = Tr(k["name"], k.get("drop_calls", ()), k.get("drop_stores", ()), k.get("mark_calls", ()),
+            k.get("trace_calls", ()), k.get("havoc_loops", False))
     if "wrapper" in k:
         src = Path(tmpdir) / f"w_{k['name']}.c"
         src.write_text(WRAP + k["wrapper"] + "\n")
@@ -623,6 +811,20 @@ def gen_kernel(k, tmpdir):
                  (f" after the write of {k['after']}" if "after" in k else "")
     body = next(c for c in fd["inner"] if c.get("kind") == "CompoundStmt")
     stmts = tr.slice(body, k["slice"]) if "slice" in k else body.get("inner", [])
+    LOOPS = ("WhileStmt", "ForStmt", "DoStmt")
+    loop_iter = None
+    if k.get("region") == "before_loop":
+        li = [i for i, st in enumerate(stmts) if st.get("kind") in LOOPS]
+        if not li:
+            raise Unsupported(f"region before_loop of {k['name']}: no top-level loop")
+        stmts = stmts[:li[0]]
+    elif k.get("region") == "loop_iter":
+        ws = [st for st in stmts if st.get("kind") in LOOPS]
+        if len(ws) != 1 or ws[0]["kind"] != "WhileStmt" or len(ws[0]["inner"]) != 2:
+            raise Unsupported(f"region loop_iter of {k['name']}: expected exactly one top-level while loop")
+        loop_iter = ws[0]["inner"]
+    elif "region" in k:
+        raise Unsupported(f"unknown region {k['region']}")
     if "after" in k:
         # tail of the function: the top-level statements following the one top-level statement that
         # writes the named variable (which thereby becomes an input of the kernel)
@@ -644,6 +846,14 @@ def gen_kernel(k, tmpdir):
                 ty = tr.wtypes.get(w, "Int")
                 fields.append(f"{w} := {tr.read(env, w, ty)}")
             return "some { " + ", ".join(fields) + " }"
+        if loop_iter is not None:
+            # one iteration of `while (c) body`: loop_again = c on entry && the body ended without `break`
+            def again(env, val):
+                return tr.assign(env, "loop_again", val, lambda e: fin(e, None), "Bool")
+            env0 = {}
+            c = tr.as_bool(loop_iter[0], env0)
+            th = tr.stmt(loop_iter[1], dict(env0), lambda e: again(e, "true"), lambda e: again(e, "false"), fin)
+            return f"if {c} then\n{indent(th)}\nelse\n{indent(again(dict(env0), 'false'))}"
         return tr.seq(stmts, {}, lambda env: fin(env, None), None, fin)
     run([])                       # pass 1: discover written variables and inputs
     outs = list(tr.written)
@@ -657,7 +867,7 @@ def gen_kernel(k, tmpdir):
     if "slice" in k:
         outs = [w for w in outs if w in k["slice"] or "__" in w]
     else:
-        outs = [w for w in outs if w not in tr.locals]
+        outs = [w for w in outs if w not in tr.locals or w in k.get("keep", ())]   # keep=[locals reported as outputs]
     tr.inputs = {}
     term = run(outs)              # pass 2
     ins = sorted(tr.inputs.items())
@@ -674,7 +884,7 @@ def enum_check(enum_uses, tmpdir, extra=()):
     """every enum constant used as a flag bit is a single bit; constants used on one variable differ"""
     names = sorted({e for s in enum_uses.values() for e in s})
     src = Path(tmpdir) / "enums.c"
-    lines = ['#include <stdio.h>', '#include "uv.h"', '#include "uv-common.h"', '#include "internal.h"']
+    lines = ['#include <stdio.h>', '#include <sys/un.h>', '#include "uv.h"', '#include "uv-common.h"', '#include "internal.h"']
     for e in names:
         lines.append(f'_Static_assert(({e}) != 0 && ((({e}) & (({e}) - 1)) == 0), "{e} is not a single bit");')
     for var, es in enum_uses.items():
@@ -685,6 +895,8 @@ def enum_check(enum_uses, tmpdir, extra=()):
     lines.append("int main(void) {")
     for e in sorted(set(names) | set(extra)):
         lines.append(f'  printf("{e} %lld\\n", (long long) ({e}));')
+    for ln, ce in sorted(SIZEOFS.items()):
+        lines.append(f'  printf("{ln} %lld\\n", (long long) ({ce}));')
     lines.append("  return 0; }")
     src.write_text("\n".join(lines) + "\n")
     exe = Path(tmpdir) / "enums"
